@@ -115,8 +115,17 @@ def gops_expected(cfg, msgs, k, upto, ep):
     if not enabled or num == 0:
         return []
     gops = []
+    hdr = {}
     for i, m in enumerate(msgs[:upto]):
-        if m["epoch"] != ep or len(m["p"]) == 0 or m["cls"] in ("meta", "vsh", "ash"):
+        if m["epoch"] != ep or len(m["p"]) == 0:
+            continue
+        if m["cls"] in ("vsh", "ash"):
+            # a sequence header with other content makes the cached GOPs undecodable: they are dropped
+            if m["cls"] in hdr and hdr[m["cls"]] != m["p"]:
+                gops = []
+            hdr[m["cls"]] = m["p"]
+            continue
+        if m["cls"] == "meta":
             continue
         if m["cls"] == "key":
             gops.append([i])
